@@ -9,7 +9,8 @@
      trace : ','-separated event tokens or '-': the tokens of ml/c01_main.ml plus
              XX.n  SX.n  SR.n  PX.n.ref.stored  TX.n.set  MX.n.stored  MB.n  ME.n.(m|s|c)  QK  QX  CN
      api   : optionally followed by /<5 bits> (which of PreCopy PostCopy OnCopySkipped OnMounted MountFrom are
-             set; the invocations of nil callbacks are inserted by Model/CopyFaultOpt.fstep_opt); followed by m when the destination is a registry.Mounter and MountFrom is set
+             set; the invocations of nil callbacks are inserted by Model/CopyFaultOpt.fstep_opt); followed by m when the destination is a Mounter, by c when the root is in the proxy cache at the start
+             (resolveRoot through a ReferenceFetcher); m: when the destination is a registry.Mounter and MountFrom is set
    output: <id> ACC ret=<1|0|-> tag=<n|-> dst=<ids> closed=<1|0>
              closed = the destination was link-closed after EVERY event of the trace (self-check of
              the model-side predicate; the theorem C02_closed_always says it is always 1)
@@ -71,7 +72,8 @@ let () =
         let cs k = (match k with
           | CPre -> bits.[0] = '1' | CPost -> bits.[1] = '1' | CSkip -> bits.[2] = '1'
           | CMounted -> bits.[3] = '1' | CMountFrom -> bits.[4] = '1') in
-        let mount = String.length sapi = 2 && sapi.[1] = 'm' in
+        let mount = String.contains_from sapi 1 'm' in
+        let cachedroot = String.contains_from sapi 1 'c' in
         let sapi = String.sub sapi 0 1 in
         let ext = (sapi = "x") in
         let n = if ext then n0 + 1 else n0 in
@@ -106,7 +108,7 @@ let () =
                     g_ismf = (fun x -> get ismf false x);
                     g_dkey = (fun x -> let i = int_of_nat x in nat_of_int (if i < n then dkey.(i) else 1000000 + i)) } in
           let c = { c_K = eff_K_gen (z_of_int (int_of_string sk)); c_mode = mode; c_root = nat_of_int root; c_mount = mount;
-                    c_tagmounted = true; c_cached0 = []; c_xroots = List.map nat_of_int xroots } in
+                    c_tagmounted = true; c_cached0 = (if cachedroot then [nat_of_int root] else []); c_xroots = List.map nat_of_int xroots } in
           let closed = ref (closedb g d0) in
           let rec go fs tr i =
             match tr with
